@@ -55,7 +55,7 @@ var methods = []string{"GET", "PUT", "DELETE", "HEAD", "PATCH", "OPTIONS", "FOO"
 
 func mutateJSON(g *gen.G, doc []byte) ([]byte, string) {
 	s := string(doc)
-	switch g.Intn(16) {
+	switch g.Intn(17) {
 	case 0:
 		return []byte(s[:g.Intn(len(s))]), "truncated"
 	case 1:
@@ -87,6 +87,11 @@ func mutateJSON(g *gen.G, doc []byte) ([]byte, string) {
 	case 14:
 		i := g.Intn(len(s))
 		return []byte(s[:i] + string(rune(32+g.Intn(90))) + s[i+1:]), "byte-flip"
+	case 15:
+		// a number string holding a control character (escaped, so the document is valid JSON): the
+		// error text echoes it and must still arrive as well-formed JSON
+		esc := []string{`\u0007`, `\u0001`, `\u000b`, `\u001b`, `\u007f`, `\ud83d\ude00`}[g.Intn(6)]
+		return []byte(strings.Replace(s, `"preRoot":"0x`, `"preRoot":"0x12`+esc, 1)), "control-char-number"
 	default:
 		return []byte(strings.Replace(s, `"postRoot":`, `"postRoot":null,"p2":`, 1)), "null-field"
 	}
@@ -162,10 +167,35 @@ func uniqueFailure(g *gen.G, mode string, d, b, slot int) request {
 	return request{"POST", doc, "unique:wrong-count", hash}
 }
 
+func twinOf(mode string, rq request) (request, bool) {
+	if mode == server.InsertionMode {
+		var p prover.InsertionParameters
+		if json.Unmarshal(rq.body, &p) != nil || len(p.IdComms) == 0 {
+			return rq, false
+		}
+		p.IdComms[0] = *new(big.Int).Add(&p.IdComms[0], big.NewInt(1))
+		p.InputHash = *batchgen.HashInsertion(p.StartIndex, &p.PreRoot, &p.PostRoot, p.IdComms)
+		doc, _ := json.Marshal(&p)
+		return request{"POST", doc, "twin:same-roots-other-commitment", new(big.Int).Set(&p.InputHash)}, true
+	}
+	var p prover.DeletionParameters
+	if json.Unmarshal(rq.body, &p) != nil || len(p.IdComms) == 0 {
+		return rq, false
+	}
+	p.IdComms[0] = *new(big.Int).Add(&p.IdComms[0], big.NewInt(1))
+	doc, _ := json.Marshal(&p)
+	return request{"POST", doc, "twin:same-roots-other-commitment", new(big.Int).Set(&p.InputHash)}, true
+}
+
 func do(client *http.Client, url string, rq request) (int, []byte, error) {
 	req, err := http.NewRequest(rq.method, url, bytes.NewReader(rq.body))
 	if err != nil {
 		return 0, nil, err
+	}
+	if len(rq.body)%7 == 3 {
+		// legal but unusual: 16 kB of request headers (a forwarded token, tracing baggage); the
+		// answer and its accounting must not depend on it
+		req.Header.Set("X-Forwarded-Baggage", strings.Repeat("k=v;", 4000))
 	}
 	resp, err := client.Do(req)
 	if err != nil {
@@ -314,6 +344,14 @@ func main() {
 					for tries := 0; tries < 50 && reqs[i].class != "params:valid"; tries++ {
 						reqs[i] = genRequest(g, mode, *d, *b)
 					}
+				}
+			}
+			if *burst && !errorRound && k >= 2 && reqs[0].class == "params:valid" {
+				// a twin of the first request: same start index and the same claimed root transition,
+				// another commitment (input hash recomputed), hence unprovable.  Two requests that agree
+				// on part of their content are still two requests.
+				if tw, ok := twinOf(mode, reqs[0]); ok {
+					reqs[1] = tw
 				}
 			}
 			if *burst {
